@@ -5,6 +5,8 @@
 # /repo and /verif/evidence are not touched.
 tier=${1:-quick}; shift
 VDIR=${VDIR:-/tmp/vdev}
+# scratch copy of /verif (so that /verif/evidence and /verif/replays are left alone); created on first use, remove it afterwards
+[ -d "$VDIR" ] || { mkdir -p "$VDIR" && rsync -a --exclude .git --exclude replays --exclude bin /verif/ "$VDIR"/; }
 W=${W:-/tmp/mut-me}
 export GOFLAGS=-mod=mod GOPROXY=off GOSUMDB=off GOTOOLCHAIN=local
 cd /verif
